@@ -26,6 +26,9 @@ H == 5     \* horizon up to which anticipated shocks are used
 RECURSIVE HalfPow(_)
 HalfPow(k) == IF k = 0 THEN ROne ELSE RMul(Q(1, 2), HalfPow(k - 1))
 
+RECURSIVE ThirdPow(_)
+ThirdPow(k) == IF k = 0 THEN ROne ELSE RMul(Q(1, 3), ThirdPow(k - 1))
+
 L1 == [name |-> "L1", linear |-> TRUE, vars |-> <<"x">>, logv |-> {}, shocks |-> <<"ex">>,
        eqs |-> << [tx |-> << <<R(1), 1, 0>>, <<Q(-1, 2), 1, -1>> >>, te |-> << <<R(-1), 1>> >>, c |-> R(-1)] >>,
        mvars |-> <<"obs">>, mshocks |-> <<"w">>,
@@ -73,6 +76,16 @@ L9 == [name |-> "L9", linear |-> TRUE, vars |-> <<"x">>, logv |-> {}, shocks |->
        roots |-> <<Q(1, 2), R(2)>>, fwd |-> 1]
 L9Rk(k) == << <<HalfPow(k + 1)>> >>
 
+\* second lead: x{+2} - 11/2 x{+1} + 17/2 x - 3 x{-1} + ex - 2 = 0, i.e. (F - 1/2)(F - 2)(F - 3) x{-1} = 2 - ex : roots 1/2, 2, 3;
+\* x_t - 1/2 x_{t-1} = - sum_k ((1/2)^(k+1) - (1/3)^(k+1)) (ex_{t+k} - 2)
+L4 == [name |-> "L4", linear |-> TRUE, vars |-> <<"x">>, logv |-> {}, shocks |-> <<"ex">>,
+       eqs |-> << [tx |-> << <<R(1), 1, 2>>, <<Q(-11, 2), 1, 1>>, <<Q(17, 2), 1, 0>>, <<R(-3), 1, -1>> >>, te |-> << <<R(1), 1>> >>, c |-> R(-2)] >>,
+       mvars |-> <<"obs">>, mshocks |-> <<"w">>,
+       meqs |-> << [tx |-> << <<R(1), 1, 0>> >>, d |-> R(1), tw |-> << <<R(1), 1>> >>] >>,
+       T |-> << <<Q(1, 2)>> >>, K |-> <<R(1)>>,
+       roots |-> <<Q(1, 2), R(2), R(3)>>, fwd |-> 2]
+L4Rk(k) == << <<RSub(ThirdPow(k + 1), HalfPow(k + 1))>> >>
+
 \* root-count instances: both roots stable (indeterminate) / both unstable (no stable solution)
 L7 == [name |-> "L7", linear |-> TRUE, vars |-> <<"x">>, logv |-> {}, shocks |-> <<"ex">>,
        eqs |-> << [tx |-> << <<R(6), 1, 1>>, <<R(-5), 1, 0>>, <<R(1), 1, -1>> >>, te |-> << <<R(1), 1>> >>, c |-> RZero] >>,
@@ -81,10 +94,10 @@ L8 == [name |-> "L8", linear |-> TRUE, vars |-> <<"x">>, logv |-> {}, shocks |->
        eqs |-> << [tx |-> << <<R(1), 1, 1>>, <<R(-5), 1, 0>>, <<R(6), 1, -1>> >>, te |-> << <<R(1), 1>> >>, c |-> RZero] >>,
        mvars |-> <<>>, mshocks |-> <<>>, meqs |-> <<>>, T |-> <<>>, K |-> <<>>, roots |-> <<R(2), R(3)>>, fwd |-> 1]
 
-Model(id) == CASE id = "L1" -> L1 [] id = "L2" -> L2 [] id = "L3" -> L3 [] id = "L6" -> L6 [] id = "L9" -> L9
+Model(id) == CASE id = "L1" -> L1 [] id = "L2" -> L2 [] id = "L3" -> L3 [] id = "L6" -> L6 [] id = "L9" -> L9 [] id = "L4" -> L4
                [] id = "L7" -> L7 [] id = "L8" -> L8
-Rk(id, k) == CASE id = "L1" -> L1Rk(k) [] id = "L2" -> L2Rk(k) [] id = "L3" -> L3Rk(k) [] id = "L6" -> L6Rk(k) [] id = "L9" -> L9Rk(k)
-SolvableIds == {"L1", "L2", "L3", "L6", "L9"}
+Rk(id, k) == CASE id = "L1" -> L1Rk(k) [] id = "L2" -> L2Rk(k) [] id = "L3" -> L3Rk(k) [] id = "L6" -> L6Rk(k) [] id = "L9" -> L9Rk(k) [] id = "L4" -> L4Rk(k)
+SolvableIds == {"L1", "L2", "L3", "L4", "L6", "L9"}
 
 \* ---- source text -----------------------------------------------------------------------------------
 RatStr(q) == IF q[2] = 1 THEN "(" \o ToString(q[1]) \o ")" ELSE "(" \o ToString(q[1]) \o "/" \o ToString(q[2]) \o ")"
